@@ -1002,7 +1002,9 @@ class Columns(Widget, WidgetContainerMixin, WidgetContainerListContentsMixin):
 
         if not data:
             if size:
-                return SolidCanvas(" ", size[0], (size[1:] + (1,))[0])
+                canvas = CompositeCanvas(SolidCanvas(" ", size[0], (size[1:] + (1,))[0]))
+                canvas.set_depends([w for w, _ in self.contents])
+                return canvas
             raise ColumnsError("No data to render")
 
         canvas = CanvasJoin(data)
@@ -1011,6 +1013,9 @@ class Columns(Widget, WidgetContainerMixin, WidgetContainerListContentsMixin):
         if len(size) == 1 and not canvas.rows():
             # rows() promises at least one row, also when every column shown is empty
             canvas.pad_trim_top_bottom(0, 1)
+        # a hidden (zero width) column was asked for its size (pack()/rows()) but is not drawn: without an
+        # explicit dependency on every column the cached canvas would outlive a change of that column
+        canvas.set_depends([w for w, _ in self.contents])
         return canvas
 
     def get_cursor_coords(self, size: tuple[()] | tuple[int] | tuple[int, int]) -> tuple[int, int] | None:
